@@ -74,6 +74,37 @@ pub fn pairwise(ctx: &mut Ctx, prop: &'static str, family: &'static str, calls: 
     ctx.require(&r, &["same_call_twice", "second_call_after_a_different_call"]);
 }
 
+/// The same oracle without the fresh thread: every ordered pair (a, b) of a LARGER alphabet is executed
+/// back to back on whatever worker thread the sweep uses (so the state before a is arbitrary, not
+/// initial) and both outcomes are compared with the lone-call baseline.  For a history-independent
+/// implementation every call sequence must reproduce the baselines, so any sequence is a valid test;
+/// this one puts every b directly after every a at about the cost of the two calls.
+pub fn pairwise_same_thread(ctx: &mut Ctx, prop: &'static str, family: &'static str, calls: Vec<Call>) {
+    let n = calls.len() as u64;
+    let base: Vec<String> = calls.iter().map(|c| run_on_fresh_thread(&[c])).collect();
+    ctx.bound(&format!("history_alphabet_same_thread_{family}"), json!(calls.len()));
+    let (calls_r, base_r) = (&calls, &base);
+    let name = format!("adjacent_pairs_on_one_thread_{family}");
+    let r = ctx.sweep_each(&name, "every ordered pair (a, b) of the larger call alphabet executed back to back on a worker thread with arbitrary earlier history: both outcomes equal the outcomes of the lone calls on fresh threads", n * n, 4096, |idx, acc| {
+        let (a, b) = ((idx / n) as usize, (idx % n) as usize);
+        acc.states += 1;
+        acc.t(2);
+        acc.traces += 1;
+        acc.nontrivial += 1;
+        let ra = guard(|| (calls_r[a].f)()).unwrap_or_else(|_| "PANIC".to_string());
+        let rb = guard(|| (calls_r[b].f)()).unwrap_or_else(|_| "PANIC".to_string());
+        acc.cls("adjacent_pair");
+        if ra != base_r[a] || rb != base_r[b] {
+            let (which, got, want) = if rb != base_r[b] { (b, rb, &base_r[b]) } else { (a, ra, &base_r[a]) };
+            acc.fail(&format!("{prop}:history:{family}:outcome-depends-on-earlier-calls"), idx, || {
+                (format!("one thread: ... ; {} ; {}   (outcome of: {})", calls_r[a].name, calls_r[b].name, calls_r[which].name), format!("{want} (the outcome of that call on its own)"), got.clone(),
+                 format!("// on one thread run: {} ; {}", calls_r[a].name, calls_r[b].name))
+            });
+        }
+    });
+    ctx.require(&r, &["adjacent_pair"]);
+}
+
 fn show<T: std::fmt::Debug, E>(r: Result<T, E>) -> String {
     match r {
         Ok(v) => format!("Ok({v:?})"),
@@ -223,13 +254,15 @@ pub fn calls_ops(small: bool, filter: &dyn Fn(crate::optable::Op) -> bool) -> Ve
     let limit_dt = 100_000_000i64 * US_DAY;
     let tmin = w.cal.min_day as i64 * US_DAY;
     let tmax = (w.cal.max_day as i64 + 1) * US_DAY - 1;
-    let states: [[Val; 2]; 6] = [
-        [Val::Date(18_717), Val::Date(w.cal.max_day)],
-        [Val::Time(86_399_999_999), Val::Time(0)],
-        [Val::Ts(1_617_235_199_500_000), Val::Ts(tmin)],
-        [Val::Ym(14), Val::Ym(2_136_000_000)],
-        [Val::Dt(3 * US_DAY + 3_723_000_004), Val::Dt(-limit_dt)],
-        [Val::Od(1_617_235_199_000_000), Val::Od(tmax - 999_999)],
+    // per type: an ordinary value, a sibling of it (same month and day in another year / same day at another
+    // time / the opposite sign), a range end
+    let states: [[Val; 3]; 6] = [
+        [Val::Date(18_717), Val::Date(w.cal.day_number(9950, 3, 31)), Val::Date(w.cal.max_day)],
+        [Val::Time(86_399_999_999), Val::Time(5_400_000_000), Val::Time(0)],
+        [Val::Ts(1_617_235_199_500_000), Val::Ts(1_617_192_000_000_000), Val::Ts(tmin)],
+        [Val::Ym(14), Val::Ym(-14), Val::Ym(2_136_000_000)],
+        [Val::Dt(3 * US_DAY + 3_723_000_004), Val::Dt(-5_400_000_000), Val::Dt(-limit_dt)],
+        [Val::Od(1_617_235_199_000_000), Val::Od(1_617_192_000_000_000), Val::Od(tmax - 999_999)],
     ];
     let mut v: Vec<Call> = Vec::new();
     for &op in ALL_OPS {
@@ -238,24 +271,74 @@ pub fn calls_ops(small: bool, filter: &dyn Fn(crate::optable::Op) -> bool) -> Ve
         let args: Vec<Arg> = match kind {
             ArgKind::None => vec![Arg::None],
             ArgKind::Unit => if small { [0usize, 2, 4, 5, 9, 11].into_iter().map(Arg::Unit).collect() } else { (0..12).map(Arg::Unit).collect() },
-            ArgKind::I32 => vec![Arg::I32(1), Arg::I32(-400), Arg::I32(i32::MAX)],
-            ArgKind::F64 => vec![Arg::F64(0.5), Arg::F64(-1.0 / 86_400.0), Arg::F64(f64::NAN), Arg::F64(1e300)],
-            ArgKind::Date => vec![Arg::V(Val::Date(0)), Arg::V(Val::Date(w.cal.max_day))],
-            ArgKind::Time => vec![Arg::V(Val::Time(1)), Arg::V(Val::Time(US_DAY - 1))],
-            ArgKind::Ts => vec![Arg::V(Val::Ts(-1)), Arg::V(Val::Ts(tmax))],
-            ArgKind::Od => vec![Arg::V(Val::Od(0))],
-            ArgKind::Ym => vec![Arg::V(Val::Ym(1)), Arg::V(Val::Ym(-13)), Arg::V(Val::Ym(2_136_000_000))],
-            ArgKind::Dt => vec![Arg::V(Val::Dt(-1)), Arg::V(Val::Dt(US_DAY)), Arg::V(Val::Dt(limit_dt))],
+            ArgKind::I32 => vec![Arg::I32(1), Arg::I32(-400), Arg::I32(i32::MAX), Arg::I32(3_652_058), Arg::I32(-3_652_058)],
+            ArgKind::F64 => vec![Arg::F64(0.5), Arg::F64(-1.0 / 86_400.0), Arg::F64(f64::NAN), Arg::F64(1e300), Arg::F64(3.0), Arg::F64(3_652_058.0), Arg::F64(-3_652_058.0)],
+            ArgKind::Date => [vec![Arg::V(Val::Date(0))], states[0].iter().map(|v| Arg::V(*v)).collect()].concat(),
+            ArgKind::Time => [vec![Arg::V(Val::Time(1))], states[1].iter().map(|v| Arg::V(*v)).collect()].concat(),
+            ArgKind::Ts => [vec![Arg::V(Val::Ts(-1)), Arg::V(Val::Ts(tmax))], states[2].iter().map(|v| Arg::V(*v)).collect()].concat(),
+            ArgKind::Od => [vec![Arg::V(Val::Od(0))], states[5].iter().map(|v| Arg::V(*v)).collect()].concat(),
+            ArgKind::Ym => [vec![Arg::V(Val::Ym(1)), Arg::V(Val::Ym(-13)), Arg::V(Val::Ym(1200))], states[3].iter().map(|v| Arg::V(*v)).collect()].concat(),
+            ArgKind::Dt => [vec![Arg::V(Val::Dt(-1)), Arg::V(Val::Dt(US_DAY)), Arg::V(Val::Dt(limit_dt))], states[4].iter().map(|v| Arg::V(*v)).collect()].concat(),
         };
         for (si, s) in states[tag as usize].into_iter().enumerate() {
-            if small && si == 1 { continue; }
-            for a in args.iter().copied() {
+            if small && si > 0 { continue; }
+            for (ai, a) in args.iter().copied().enumerate() {
+                if small && ai >= 3 && !matches!(kind, ArgKind::Unit) { continue; }
                 v.push(call(format!("{}.{op:?}({})", explorer::bfs::BfsState::show(&s), arg_show(&a)), move || match step_impl(s, op, a) {
                     Out::Err(_) => "Err".to_string(),
                     other => format!("{other:?}"),
                 }));
             }
         }
+    }
+    v
+}
+
+/// Field accessors and field constructors of times, timestamps and intervals (C07 / C13): a value and its
+/// negation, a value and a neighbour, valid and invalid field tuples (each also twice in a row).
+pub fn calls_accessors() -> Vec<Call> {
+    use sqldatetime::DateTime;
+    let mut v: Vec<Call> = Vec::new();
+    for us in [3 * US_DAY + 3_723_000_004i64, 5_400_000_000, 86_400_000_000, 1, 8_639_999_999_999_999_999 / 1_000 * 1_000] {
+        for x in [us, -us] {
+            let iv = IntervalDT::try_from_usecs(x).unwrap();
+            v.push(call(format!("IntervalDT({x}).extract()"), move || format!("{:?}", iv.extract())));
+            v.push(call(format!("IntervalDT({x}).day()"), move || format!("{:?}", iv.day())));
+            v.push(call(format!("IntervalDT({x}).hour()"), move || format!("{:?}", iv.hour())));
+            v.push(call(format!("IntervalDT({x}).minute()"), move || format!("{:?}", iv.minute())));
+            v.push(call(format!("IntervalDT({x}).second()"), move || format!("{:?}", iv.second())));
+            v.push(call(format!("-IntervalDT({x})"), move || format!("{:?}", (-iv).usecs())));
+        }
+    }
+    for m in [14i32, 29, 89, 12, 2_136_000_000] {
+        for x in [m, -m] {
+            let iv = IntervalYM::try_from_months(x).unwrap();
+            v.push(call(format!("IntervalYM({x}).extract()"), move || format!("{:?}", iv.extract())));
+            v.push(call(format!("IntervalYM({x}).year()"), move || format!("{:?}", iv.year())));
+            v.push(call(format!("IntervalYM({x}).month()"), move || format!("{:?}", iv.month())));
+        }
+    }
+    for (y, m) in [(1u32, 2u32), (1, 12), (178_000_000, 0), (178_000_000, 1), (7, 5)] {
+        v.push(call(format!("IntervalYM::try_from_ym({y}, {m})"), move || show(IntervalYM::try_from_ym(y, m).map(|i| i.months()))));
+        v.push(call(format!("IntervalYM::is_valid_ym({y}, {m})"), move || format!("{}", IntervalYM::is_valid_ym(y, m))));
+    }
+    for (d, h, mi, s, f) in [(1u32, 2u32, 3u32, 4u32, 5u32), (1, 24, 0, 0, 0), (100_000_000, 0, 0, 0, 0), (100_000_000, 0, 0, 0, 1), (0, 0, 0, 0, 1_000_000), (0, 23, 59, 59, 999_999)] {
+        v.push(call(format!("IntervalDT::try_from_dhms({d}, {h}, {mi}, {s}, {f})"), move || show(IntervalDT::try_from_dhms(d, h, mi, s, f).map(|i| i.usecs()))));
+        v.push(call(format!("IntervalDT::is_valid({d}, {h}, {mi}, {s}, {f})"), move || format!("{}", IntervalDT::is_valid(d, h, mi, s, f))));
+    }
+    for (h, mi, s, f) in [(24u32, 0u32, 0u32, 0u32), (23, 59, 59, 999_999), (0, 0, 0, 1_000_000), (12, 60, 0, 0), (1, 2, 3, 4), (0, 0, 0, 0)] {
+        v.push(call(format!("Time::try_from_hms({h}, {mi}, {s}, {f})"), move || show(Time::try_from_hms(h, mi, s, f).map(|t| t.usecs()))));
+        v.push(call(format!("Time::is_valid({h}, {mi}, {s}, {f})"), move || format!("{}", Time::is_valid(h, mi, s, f))));
+        for n in [0i32, -1, 18_717] {
+            v.push(call(format!("Date({n}).and_hms({h}, {mi}, {s}, {f})"), move || show(Date::try_from_days(n).unwrap().and_hms(h, mi, s, f).map(|t| t.usecs()))));
+        }
+    }
+    for us in [0i64, -1, -86_400_000_000, -86_400_000_001, 1_617_235_199_500_000, -500_000, -1_500_000] {
+        let ts = Timestamp::try_from_usecs(us).unwrap();
+        v.push(call(format!("Timestamp({us}).extract()"), move || format!("{:?}", ts.extract())));
+        v.push(call(format!("Timestamp({us}).year/month/day/hour/minute/second"), move || format!("{:?} {:?} {:?} {:?} {:?} {:?}", ts.year(), ts.month(), ts.day(), ts.hour(), ts.minute(), ts.second())));
+        v.push(call(format!("OracleDate::from(Timestamp({us}))"), move || format!("{}", OracleDate::from(ts).usecs())));
+        v.push(call(format!("Time::from(Timestamp({us}))"), move || format!("{}", Time::from(ts).usecs())));
     }
     v
 }
